@@ -18,14 +18,14 @@ claim('C09', 'Proof of the round-trip postcondition on the real MQ.frames2topicm
 claim('C01', 'Proof, for every arrival order / delay / loss / skip / restart history (one more message of arbitrary source, id, topic and kind is universally quantified), '
       'that the real ZMQReceiver.recv only returns sets in which every synchronized source contributed exactly the subscribed topics it published under the returned id: '
       'inductive invariant of its three loops + postconditions at return; one id and one topics list per ZMQSender.send; MQ.recv/MQ.send carry the received id to the next '
-      'publish; rejoin lemma. Shape-bounded: 1..2 (thorough 3) sources per receiver, all/explicit/* subscriptions.', '6-C01')
+      'publish; rejoin lemma; calls entered after a timed-out call start from the receiver object invariant (sources hold sets of one recorded id), which every timed-out return re-establishes. Shape-bounded: 1..2 (thorough 3) sources per receiver, all/explicit/* subscriptions.', '6-C01')
 claim('C02', 'Proof that ids returned by one consumer object strictly increase (recv returns >= prev_id+1 / the given state and records it) and that one publisher object never '
       'publishes an id twice (min_send_id monotone, publish uses id >= it and sets id+1), MQ hands states over correctly; wire lemmas on the real encode/decode/subscribe '
       'expressions (z3+cvc5 strings): topic survives the wire, a topic is delivered iff the subscription names it, hidden topics only via * or by name, topic_map applied once. '
       'Payload bytes/data: C09.', '6-C02')
 claim('C03', 'Proof of the per-call clauses of the statement on the real Filter.process_frames, MQ.send and ZMQSender.send closures: None publishes nothing and consumes no id, '
       '{} is published as an empty set, a lone Frame becomes topic main, a callable result is evaluated exactly once, only inside send_maybe on an open gate, with no poll before '
-      'the publish; publish gate = required outputs tracked and every synchronized client requested; handshake. The whole-history sequence equality (first sentence) is NOT decided.', '6-C03')
+      'the publish; publish gate = required outputs tracked and every synchronized client requested; handshake on both sides (a new client is tracked only through a request without `new`; the real ZMQReceiver.recv.request says `new` exactly for sources not yet heard). The whole-history sequence equality (first sentence) is NOT decided.', '6-C03')
 claim('C04', 'Proof on the real sender closures that a publish consumes the request mark of every synchronized client it includes, marks are set only by that client\'s requests, '
       'clients leave the table only by CLOSE or after ZMQ_CONN_TIMEOUT of silence; on the real receiver that at most one prefetch per source is sent per returned set; counting lemma: '
       'publishes to a stalled consumer <= requests it had sent + 1, independent of the stall length. The numeric single-digit bound is conditional on the delay assumption.', '6-C04')
@@ -38,7 +38,7 @@ claim('C08', 'Proof by exhaustive symbolic execution of the real Filter.run (rea
       'lifecycle point, for all 4 propagate policies x loop_exc, any number of loop iterations (cut-point): shutdown exactly once iff setup completed, MQ destroyed exactly once iff '
       'created, stop event set, run() returns for clean exits and raises for errors (Python in-flight-exception semantics), announcement exactly once with the right kind before '
       'teardown iff the policy covers it; real Filter.init: exit_after forms become the right deadline, obey policy of on_exit_msg; real Filter.loop_once: clean exit at the end of '
-      'the first iteration whose clock reached the deadline. Whole-pipeline termination is NOT decided.', '6-C08')
+      'the first iteration whose clock reached the deadline; real MQ.send_exit_msg / ZMQReceiver.send_oob / Sender.send_push / ZMQSender.send_oob: the announcement is handed to the request channel of every source that has one (heard or not) and to every PUB socket. Whole-pipeline termination is NOT decided.', '6-C08')
 claim('C18', 'Proof over the real Filter.run/init/exit/fini (abstract stages, ghost event log) and the real OpenFilterLineage methods of: exactly one START, emitted first and before '
       'the heartbeat thread starts; one run id per emitter on every event; the heartbeat thread emits RUNNING* then exactly one COMPLETE only after its stop event. The terminal-event '
       'clauses (exactly one terminal event, COMPLETE iff clean) FAIL on this tree at 7 emitting call sites and are recorded as known findings (one per call site and clause); they are '
